@@ -403,7 +403,7 @@ func leaseBuildable(adv *dhcpv6.Message) bool {
 }
 
 // leaseRequest6 checks a REQUEST phase: the REQUEST's content against the
-// advertise, and the answer = the first routed message.
+// advertise, and the answer = the first routed REPLY.
 func leaseRequest6(sc leaseScenario, o leaseOut, ph leasePhase, req, adv *dhcpv6.Message) (string, string) {
 	if req.MessageType != dhcpv6.MessageTypeRequest {
 		return "v6-request", "second datagram is not a REQUEST"
@@ -420,12 +420,19 @@ func leaseRequest6(sc leaseScenario, o leaseOut, ph leasePhase, req, adv *dhcpv6
 			return "v6-request", "IA_PD is not the advertise's first one"
 		}
 	}
-	routed := leaseRouted6(o, ph, req.TransactionID)
+	// REQUEST and REPLY are paired by transaction id: the answer is the first
+	// REPLY carrying the REQUEST's id; anything else with that id is passed over
+	var replies []leaseArr6
+	for _, a := range leaseRouted6(o, ph, req.TransactionID) {
+		if a.m.MessageType == dhcpv6.MessageTypeReply {
+			replies = append(replies, a)
+		}
+	}
 	switch {
-	case len(routed) == 0 && o.res != "noresp":
-		return "v6-request", "nothing carrying the REQUEST's transaction id arrived: want the no-response error, got " + o.res
-	case len(routed) > 0 && (o.res != "msg" || !leaseSame6(o.m6, routed[0].m)):
-		return "v6-request", "the answer is not the first message carrying the REQUEST's transaction id"
+	case len(replies) == 0 && o.res != "noresp":
+		return "v6-request", "no REPLY carrying the REQUEST's transaction id arrived: want the no-response error, got " + o.res
+	case len(replies) > 0 && (o.res != "msg" || !leaseSame6(o.m6, replies[0].m)):
+		return "v6-request", "the answer is not the first REPLY carrying the REQUEST's transaction id"
 	}
 	return "", ""
 }
